@@ -274,7 +274,7 @@ PH_METHOD = {"pass": "addSuccess", "fail": "addFailure", "error": "addError", "s
 def scenario_suite(tape, out):
     stream_variant = tape.chance("config", 1, 5, "stream-variant")
     spec = ["e2stream"] if stream_variant else gen_stack(tape)
-    mode = tape.weighted("config", [(2, "off"), (3, "before-wrap"), (3, "after-wrap"), (2, "before-wrap-some")], "failfast")
+    mode = tape.weighted("config", [(2, "off"), (3, "before-wrap"), (3, "after-wrap"), (2, "before-wrap-some"), (2, "mid-run")], "failfast")
     some_bits = [tape.chance("config", 1, 2, "failfast-on-this-terminal") for _ in range(4)]
     if mode == "before-wrap-some" and not any(some_bits):
         some_bits[0] = True
@@ -291,7 +291,7 @@ def scenario_suite(tape, out):
     if stream_variant:
         sink = TStream(world, "sink")
         top = ExtendedToStreamDecorator(sink)
-        if mode != "off":
+        if mode not in ("off", "mid-run"):
             top.failfast = True
         st.layers.append(("e2stream", top, 0))
     else:
@@ -301,12 +301,11 @@ def scenario_suite(tape, out):
                 mode = "off"
         else:
             top = build(spec, world, st, mode == "before-wrap")
+        settable = [(k, o) for k, o, d in st.layers if d == 0 and k in ("multi", "e2o", "result", "text")]
+        if mode in ("after-wrap", "mid-run") and not settable:
+            mode = "off"
         if mode == "after-wrap":
-            settable = [(k, o) for k, o, d in st.layers if d == 0 and k in ("multi", "e2o", "result", "text")]
-            if settable:
-                settable[0][1].failfast = True
-            else:
-                mode = "off"
+            settable[0][1].failfast = True
     stop_layer = None
     if stop_in is not None:
         stop_layer = st.layers[tape.draw("program", len(st.layers), "stop-layer")]
@@ -346,6 +345,9 @@ def scenario_suite(tape, out):
                 top.stop()
             top.stopTestRun()
         top.startTestRun()
+        if mode == "mid-run":
+            # failfast switched on once the run is under way
+            (top if stream_variant else settable[0][1]).failfast = True
         suite.run(top)
         top.stopTestRun()
     except Exception as e:   # noqa
